@@ -26,6 +26,29 @@ import (
 
 func init() { runtime.LockOSThread() }
 
+type flipSource struct {
+	io.ReadSeeker
+	seeks int
+	pos   int64
+	at    int64
+}
+
+func (f *flipSource) Seek(off int64, whence int) (int64, error) {
+	f.seeks++
+	n, err := f.ReadSeeker.Seek(off, whence)
+	f.pos = n
+	return n, err
+}
+
+func (f *flipSource) Read(p []byte) (int, error) {
+	n, err := f.ReadSeeker.Read(p)
+	if f.seeks >= 2 && f.at >= f.pos && f.at < f.pos+int64(n) {
+		p[f.at-f.pos] ^= 0x5a
+	}
+	f.pos += int64(n)
+	return n, err
+}
+
 func main() {
 	debug.SetGCPercent(-1)
 	if len(os.Args) < 4 {
@@ -67,6 +90,10 @@ func main() {
 				fmt.Println("RLIMITERR", err)
 				os.Exit(2)
 			}
+		case strings.HasPrefix(a, "flip="):
+			// the source delivers a different byte at this offset on its second pass
+			off, _ := strconv.Atoi(a[5:])
+			src = &flipSource{ReadSeeker: src, at: int64(off)}
 		case strings.HasPrefix(a, "srcfile="):
 			f, err := os.Open(a[8:])
 			if err != nil {
